@@ -267,6 +267,7 @@ func (s *seamState) hookRead(f *os.File, b []byte) (int, error, bool) {
 				n := copy(b[:want], s.sdata[s.spos:s.savail])
 				s.spos += n
 				s.readBytes[f] += int64(n)
+				rt.AddStepBudget(n)
 				return n, nil, true
 			}
 			if s.seof {
@@ -294,6 +295,7 @@ func (s *seamState) hookRead(f *os.File, b []byte) (int, error, bool) {
 	}
 	n, err := f.VerifRawRead(b[:want])
 	s.readBytes[f] += int64(n)
+	rt.AddStepBudget(n)
 	return n, err, true
 }
 
